@@ -515,6 +515,19 @@ theorem findEntryAndExitPoints_unwritten_witness :
   rw [hu]
   norm_num [mem, exBox]
 
+/-- (f) Guard path of `findEntryAndExitPoints`, hit → miss with a REPRESENTABLE entry parameter.  Box `[0,1]³`, origin
+`(-1/16)³` a hair outside, direction `(1/8)³`, `T = 4`: reaching the FAR face needs `t = (1 + 1/16)·8 > T`, so
+`|max.x - pos.x| = 17/16` is not `< T·dir.x = 1/2`, the X block treats the axis as parallel and, the origin being outside
+the slab, returns `false` — although the line enters the box at `t = 1/2 ≤ T` (and `intersects` answers `true` with
+`ip = (0,0,0)`).  Replayed on the real code at double with origin `(-1e-30)³`, direction `(denorm_min)³`
+(`guard-sweep:findEntryAndExitPoints:hit-to-miss:all-components-fail-guard:t-le-TMAX`, sweep block fixed-underflow-t-min). -/
+theorem findEntryAndExitPoints_near_face_miss_witness :
+    (findEntryAndExitPoints (4 : ℚ) ⟨⟨-1/16, -1/16, -1/16⟩, ⟨1/8, 1/8, 1/8⟩⟩ ⟨⟨0, 0, 0⟩, ⟨1, 1, 1⟩⟩ z3 z3).1 = false ∧
+    mem (pointAt (⟨⟨-1/16, -1/16, -1/16⟩, ⟨1/8, 1/8, 1/8⟩⟩ : Line3 ℚ) (1/2)) ⟨⟨0, 0, 0⟩, ⟨1, 1, 1⟩⟩ ∧
+    (1/2 : ℚ) ≤ 4 ∧
+    intersects (4 : ℚ) ⟨⟨0, 0, 0⟩, ⟨1, 1, 1⟩⟩ ⟨⟨-1/16, -1/16, -1/16⟩, ⟨1/8, 1/8, 1/8⟩⟩ z3 = (true, ⟨0, 0, 0⟩) :=
+  ⟨by decide +kernel, by norm_num [mem, pointAt], by norm_num, by decide +kernel⟩
+
 end Witnesses
 
 end ImathVerif.RayBox.C14
